@@ -15,8 +15,22 @@ CANARY_SRC = '''
 COUNT = {'n': 0}
 def bump(what):
     COUNT['n'] += 1
-    COUNT.setdefault('log', []).append(what)
-class Canary:
+    log = COUNT.setdefault('log', [])
+    log.append(what)
+    if len(log) > 200:
+        del log[:100]
+class Meta(type):
+    @property
+    def computed(cls):
+        bump('Canary.computed (class-level computed attribute)')
+        return 'computed'
+class Stepper:
+    def __iter__(self):
+        return self
+    def __next__(self):
+        bump('Stepper.__next__')
+        return 1
+class Canary(metaclass=Meta):
     def __new__(cls, *a, **k):
         bump('Canary.__new__')
         return object.__new__(cls)
@@ -35,6 +49,8 @@ class Plain:
     pass
 instance = object.__new__(Canary)
 VALUE = 42
+ITER = iter([10, 20, 30])
+STEPPER = Stepper()
 '''
 UNIMPORTED_SRC = '''
 import builtins
@@ -53,9 +69,17 @@ def install_canaries(tmpdir):
         f.write(CANARY_SRC)
     with open(os.path.join(d, 'vf_unimported.py'), 'w') as f:
         f.write(UNIMPORTED_SRC)
+    # an imported package with a submodule that is importable but not imported, and a package that is not imported at all
+    for pkg, imported in (('vf_canarypkg', True), ('vf_unimppkg', False)):
+        os.makedirs(os.path.join(d, pkg), exist_ok=True)
+        with open(os.path.join(d, pkg, '__init__.py'), 'w') as f:
+            f.write('VALUE = 7\n' if imported else UNIMPORTED_SRC)
+        with open(os.path.join(d, pkg, 'unimp.py' if imported else 'sub.py'), 'w') as f:
+            f.write(UNIMPORTED_SRC)
     if d not in sys.path:
         sys.path.insert(0, d)
     import vf_canary
+    import vf_canarypkg
     return vf_canary
 
 
@@ -129,8 +153,8 @@ class Confinement:
             out.append(('sys.modules', 'grew from %d to %d' % (self.mods, len(sys.modules))))
         if self.canary.COUNT['n'] != self.count:
             out.append(('canary', ','.join(self.canary.COUNT.get('log', [])[-3:])))
-        if len(builtins.__dict__.get('_vf_unimported_loaded', [])) != self.unimp or 'vf_unimported' in sys.modules:
-            out.append(('unimported-module-loaded', 'vf_unimported'))
+        if len(builtins.__dict__.get('_vf_unimported_loaded', [])) != self.unimp or any(m in sys.modules for m in ('vf_unimported', 'vf_unimppkg', 'vf_unimppkg.sub', 'vf_canarypkg.unimp')):
+            out.append(('unimported-module-loaded', 'a canary module that was importable but not imported got imported'))
         return out
 
 
